@@ -20,6 +20,16 @@ pub enum Kind {
     SetHolder,
     /// the hidden Gc object inside a DynamicRootSet (never named by an op)
     SetInner,
+    /// `[Lock<Edge>]`: a dynamically sized object whose elements are edges
+    Slice { len: u8 },
+    /// `SliceWithHeader<SwhHead, Lock<Edge>>`: slot 0 in the header, slots 1.. in the slice
+    Swh { len: u8 },
+    /// leaf from the layout family (index into lay::LAYS, runtime length)
+    Lay { t: u8, len: u8 },
+    /// completed token-bearing `SliceWithHeader<Tok, Tok>` made by a builder op (leaf)
+    Built { len: u8 },
+    /// the shared object of the root's ZstCache (never named by an op)
+    ZstShared,
 }
 
 impl Kind {
@@ -34,6 +44,9 @@ impl Kind {
             Kind::Leaf | Kind::LeafLock | Kind::LeafStatic => 0,
             Kind::SetHolder => 1, // the set's inner object; not writable
             Kind::SetInner => 0,  // grows with stashes
+            Kind::Slice { len } => len as usize,
+            Kind::Swh { len } => 1 + len as usize,
+            Kind::Lay { .. } | Kind::Built { .. } | Kind::ZstShared => 0,
         }
     }
     pub fn n_weak(self) -> usize {
@@ -54,17 +67,24 @@ impl Kind {
         }
     }
     pub fn has_tok(self) -> bool {
-        !matches!(self, Kind::Cell | Kind::Once | Kind::LeafLock | Kind::SetInner)
+        !matches!(self, Kind::Cell | Kind::Once | Kind::LeafLock | Kind::SetInner | Kind::Slice { .. } | Kind::Lay { .. } | Kind::ZstShared)
     }
     pub fn needs_trace(self) -> bool {
-        !matches!(self, Kind::Leaf | Kind::LeafLock | Kind::LeafStatic)
+        !matches!(self, Kind::Leaf | Kind::LeafLock | Kind::LeafStatic | Kind::Lay { .. } | Kind::Built { .. } | Kind::ZstShared)
+    }
+    /// ids an allocation of this kind consumes (the object itself + hidden companions / parts)
+    pub fn ids_used(self) -> u32 {
+        match self {
+            Kind::SetHolder => 2,
+            Kind::Built { len } => 1 + len as u32,
+            _ => 1,
+        }
     }
     /// can be the target of a typed DynamicRoot handle
     pub fn stashable(self) -> bool {
         matches!(self, Kind::Node | Kind::Field)
     }
-    pub const ALLOCATABLE: [Kind; 9] =
-        [Kind::Node, Kind::Field, Kind::Raw, Kind::Cell, Kind::Once, Kind::Leaf, Kind::LeafLock, Kind::LeafStatic, Kind::SetHolder];
+
 }
 
 /// Who holds the slot being written.
@@ -93,6 +113,56 @@ pub enum Route {
     ForwardNone,
     /// raw store with no barrier (only legal when storing None)
     NoBarrier,
+    /// DST kinds: write through the thin representation / through a range projection
+    ViaThin,
+    ViaRange,
+}
+
+/// How a pointer is converted before it is stored (C19): what sits in the slot is the converted
+/// representation only.
+#[derive(Serialize, Deserialize, Clone, Copy, Debug, PartialEq, Eq, PartialOrd, Ord, Hash, Default)]
+pub enum Conv {
+    #[default]
+    None,
+    /// Gc::erase: stored as Gc<()>
+    Erase,
+    /// unsize! to a trait object
+    Unsize,
+    /// as_ptr -> from_ptr round trip
+    Raw,
+    /// downgrade -> upgrade round trip
+    Weak,
+    /// as_thin: stored in the thin representation
+    Thin,
+}
+
+#[derive(Serialize, Deserialize, Clone, Copy, Debug, PartialEq, Eq)]
+pub enum BKind {
+    /// GcBuilder<Tok-bearing sized value>
+    Sized,
+    /// GcSliceWithHeaderBuilder<Tok, Tok>
+    Swh,
+    /// GcSliceBuilder<Tok>
+    Slice,
+    /// GcSliceBuilder<u32> finished with copy_slice
+    CopySlice,
+    /// GcStrBuilder finished with copy_str
+    Str,
+    /// the unwrap_static variants over plain data
+    StaticSwh,
+}
+
+#[derive(Serialize, Deserialize, Clone, Copy, Debug, PartialEq, Eq)]
+pub enum BStage {
+    /// drop the builder right after `new`
+    AbandonNew,
+    /// write the header, then drop
+    AbandonAfterHeader,
+    /// element constructor panics at index k
+    PanicAt(u8),
+    /// copy_slice / copy_str with a source whose length differs by this much
+    WrongLen(i8),
+    Complete,
 }
 
 /// The eight explicit barrier forms, for barrier-only ops.
@@ -131,7 +201,14 @@ pub enum SetRef {
 pub enum Op {
     /// allocate an object; it is garbage unless linked later in the same callback
     Alloc { id: Id, kind: Kind },
-    Link { holder: Holder, slot: u8, child: Id, route: Route },
+    Link {
+        holder: Holder,
+        slot: u8,
+        child: Id,
+        route: Route,
+        #[serde(default)]
+        conv: Conv,
+    },
     Unlink { holder: Holder, slot: u8, route: Route },
     LinkWeak { holder: Holder, slot: u8, child: Id, route: Route },
     UnlinkWeak { holder: Holder, slot: u8, route: Route },
@@ -148,6 +225,13 @@ pub enum Op {
     Resurrect { holder: Holder, slot: u8, weak: bool },
     /// unwind out of the callback here
     Panic,
+    /// run a builder up to `stage`; its parts carry tokens first, first+1, ...
+    Builder { first: Id, kind: BKind, n: u8, stage: BStage },
+    /// convert a pointer through a chain of representations and back, checking identity and
+    /// contents at every step; nothing is stored
+    Convert { obj: Id, chain: Vec<Conv> },
+    /// ZstCache::alloc / alloc_static of a zero-sized (align 2^a) or an ordinary value
+    Zst { id: Id, a: u8, sized: bool, via_static: bool },
 }
 
 #[derive(Serialize, Deserialize, Clone, Copy, Debug, PartialEq, Eq, PartialOrd, Ord, Hash)]
@@ -240,6 +324,7 @@ pub enum Event {
     /// arm a trace fault: panic at the `at`-th FaultPoint trace of the run, `repeat` times
     ArmTraceFault { at: u64, repeat: u32 },
     /// `root_set` is the id given to the hidden Gc object of the root's DynamicRootSet
+    /// (`root_set + 1` to the shared object of its ZstCache)
     NewArena { a: Aid, root_set: Id, ops: Vec<Op>, p: PacingSpec, fail: CtorFail },
     DropArena { a: Aid },
 }
